@@ -600,3 +600,19 @@ def sweep_cross_wiring(c: Check, rule: str, prefixes, floor: int) -> int:
             judged += sum(1 for p, ms in mention.items() if p in ms)
     c.floor(rule, 'constructor arguments that name their own parameter in %s' % ', '.join(prefixes), judged, floor)
     return judged
+
+
+def suite_reading_method(ix, require):
+    """the method of the suite hierarchy reader that reads one suite file: the one method of `_SingleFileReader`
+    that resolves a handling setup from the suite document (found by what it does, not by its name)"""
+    from .. import util as _u
+    shr = 'exactly_lib.test_suite.file_reading.suite_hierarchy_reading'
+    cls = ix.cls(shr + ':_SingleFileReader')
+    rs = ix.func('exactly_lib.test_suite.file_reading.suite_file_reading:resolve_test_case_handling_setup')
+    ms = []
+    for s in _u.call_sites_of(ix, rs):
+        if s.func is not None and s.func.cls is cls and s.func not in ms:
+            ms.append(s.func)
+    require(len(ms) == 1, 'the method of _SingleFileReader that resolves the handling setup of a suite is not unique: %s'
+            % [m.name for m in ms])
+    return ms[0]
